@@ -22,8 +22,10 @@ import (
 	"crypto/x509"
 	"encoding/hex"
 	"errors"
+	"maps"
 	"net/http"
 	"net/url"
+	"slices"
 	"strings"
 	"time"
 
@@ -405,7 +407,9 @@ func (a *jwtAuthenticator) getKey(
 	}
 
 	if a.isCacheEnabled() {
-		cacheKey = a.calculateCacheKey(ep, req.URL.String(), keyID)
+		// the endpoint hash covers the header templates only; the rendered values of templated headers (which,
+		// like the url, may depend on the issuer of the token) have to be part of the key as well
+		cacheKey = a.calculateCacheKey(ep, req.URL.String()+renderedHeaders(ep, req), keyID)
 		if entry, err := cch.Get(ctx.AppContext(), cacheKey); err == nil {
 			var jwk jose.JSONWebKey
 
@@ -578,6 +582,23 @@ func (a *jwtAuthenticator) verifyTokenWithKey(
 	}
 
 	return rawPayload, nil
+}
+
+// renderedHeaders returns the rendered values of the templated endpoint headers in the order of their names.
+// It does not modify the endpoint, which is shared by all requests.
+func renderedHeaders(ep *endpoint.Endpoint, req *http.Request) string {
+	var sb strings.Builder
+
+	for _, name := range slices.Sorted(maps.Keys(ep.Headers)) {
+		if strings.Contains(ep.Headers[name], "{{") {
+			sb.WriteString("\n")
+			sb.WriteString(name)
+			sb.WriteString(": ")
+			sb.WriteString(req.Header.Get(name))
+		}
+	}
+
+	return sb.String()
 }
 
 func (a *jwtAuthenticator) calculateCacheKey(ep *endpoint.Endpoint, renderedURL, reference string) string {
